@@ -61,7 +61,7 @@ def run_case(spec, ctx):
             thunks.append(("NegativeOrthant.prox", {"x": x}, (lambda a=x: NegativeOrthant.prox(a.copy()))))
             thunks.append(("Sphere.prox", {"x": x, "z": z, "r": ball.r}, (lambda a=x, c=z: ball.prox(a.copy(), c))))
             thunks.append(("Sphere.prox", {"x": x, "z": z, "r": ball.r, "instance": "fresh"}, (lambda a=x, c=z: Sphere(ball.r).prox(a.copy(), c))))
-        purity_check(ctx, rng, thunks, mon="purity")
+        purity_check(ctx, rng, thunks, mon="purity", scribble=True)
         ctx.cls("kind:purity")
         ctx.sig([kind, sig[:3]], nontrivial=True)
         ctx.sample({"kind": kind, "calls": len(thunks)})
